@@ -252,6 +252,30 @@ def run_debug(sv, tier, i, n, res):
                 res.outcome('debug-same')
 
 
+def same_up_to_whitespace(pretty_out, r):
+    """repr() of a compiled pattern longer than 200 characters is truncated by the re module and then contains an unterminated string
+    literal; 'inside quotes' is undefined there, so the comparison ignores all whitespace.  Otherwise whitespace inside string
+    literals must be preserved exactly."""
+    if unterminated(r):
+        return ''.join(pretty_out.split()) == ''.join(r.split())
+    return strip_ws(pretty_out) == strip_ws(r)
+
+
+def unterminated(s):
+    q, i = None, 0
+    while i < len(s):
+        c = s[i]
+        if q:
+            if c == '\\' and i + 1 < len(s):
+                i += 1
+            elif c == q:
+                q = None
+        elif c in '"\'':
+            q = c
+        i += 1
+    return q is not None
+
+
 def strip_ws(s):
     out, q, i = [], None, 0
     while i < len(s):
@@ -302,7 +326,9 @@ def pretty_selectors(tier):
     texts += [S.render(l) for l in c02.selectors('quick', 'ofS')[::(6 if tier == 'quick' else 2)]]
     texts += [c09.render(c09.parts_of(l)) for l in c09.bases('quick')]
     texts += ['[type="a|b" i]', ':lang("de-*", "")', ':-soup-contains("a\\"b", \'c\')', ':is()', ':root:hover', ':nth-child(-100n - 7 of :not(.x, #y))',
-              'a:default, :indeterminate', ':in-range', ':dir(rtl)', '[a="]"]', "[a='(']", '[a="\\\\"]', ':--x']
+              'a:default, :indeterminate', ':in-range', ':dir(rtl)', '[a="]"]', "[a='(']", '[a="\\\\"]', ':--x',
+              '[a="' + 'x' * 250 + '"]', '[a~="' + 'y' * 500 + '" i]', '[a="' + "q'" * 120 + '"]', '.' + 'c' * 300, '#' + 'i' * 300,
+              ':-soup-contains("' + 'z' * 400 + '")', ':lang("' + 'en-' * 100 + 'x")', ', '.join('a%d' % i for i in range(60)), ':is(' + ', '.join('[k="%s"]' % ('v' * i) for i in range(180, 215, 5)) + ')']
     seen, out = set(), []
     for t in texts:
         if t not in seen:
@@ -343,7 +369,7 @@ def run_pretty(sv, tier, i, n, res):
             except Exception as e:
                 why = f'pretty() raised {e!r}'
             else:
-                if strip_ws(out) != strip_ws(r):
+                if not same_up_to_whitespace(out, r):
                     why = 'pretty() output differs from repr() by more than whitespace'
             res.evaluations += 1
             res.nontrivial += 1
@@ -358,7 +384,7 @@ def run_pretty(sv, tier, i, n, res):
         try:
             with shard.deadline(30), contextlib.redirect_stdout(sink):
                 run_budgeted(lambda: c.selectors.pretty(), 200 * len(repr(c.selectors)) + 10000)
-            if strip_ws(sink.getvalue()) != strip_ws(repr(c.selectors)):
+            if not same_up_to_whitespace(sink.getvalue(), repr(c.selectors)):
                 res.fail({'layer': 'pretty', 'text': t}, {'kind': 'pretty', 'what': 'method-output'}, f'{t!r}: SelectorList.pretty() printed something else')
         except (Budget, shard.CaseTimeout):
             res.fail({'layer': 'pretty', 'text': t}, {'kind': 'pretty', 'what': 'method-budget'}, f'{t!r}: SelectorList.pretty() did not terminate within budget')
@@ -438,7 +464,7 @@ def replay(case):
             out, steps = run_budgeted(lambda: pmod.pretty(c.selectors), 200 * len(r) + 10000)
     except (Budget, shard.CaseTimeout):
         return {'kind': 'pretty'}, 'does not terminate within budget'
-    return None if strip_ws(out) == strip_ws(r) else ({'kind': 'pretty'}, 'differs from repr')
+    return None if same_up_to_whitespace(out, r) else ({'kind': 'pretty'}, 'differs from repr')
 
 
 def check(tier, seed):
